@@ -20,7 +20,7 @@
 (* violations), `cov` counts how often each clause's antecedent held       *)
 (* (vacuity), and the last step writes both to IOEnv.OUT.                  *)
 (***************************************************************************)
-EXTENDS PPGProps, Json, IOUtils
+EXTENDS PPGEngine, Json, IOUtils
 
 CONSTANT SelProps      \* property ids to evaluate, e.g. {"C02", "H"}
 CONSTANT MaxViol       \* stop collecting after this many
@@ -31,7 +31,7 @@ VARIABLES l, cx, viol, cov
 vars == <<l, cx, viol, cov>>
 
 SetFields == {"ready", "running", "cleanup", "failed", "upf", "indag", "started", "succ",
-              "faildel", "changed", "cleaned", "offered", "coffered", "skipev", "rab"}
+              "faildel", "changed", "cleaned", "offered", "coffered", "skipev", "rab", "cgen"}
 Norm(r) == [f \in DOMAIN r |-> IF f \in SetFields THEN ToSet(r[f]) ELSE r[f]]
 
 NoCtx == [none |-> TRUE]
@@ -66,6 +66,7 @@ Clauses == <<
   <<"C18a", "C18", "end">>, <<"C18b", "C18", "end">>, <<"C18c", "C18", "end">>,
   <<"C18d", "C18", "end">>, <<"C18e", "C18", "end">>,
   <<"C20a", "C20", "tr">>, <<"C20b", "C20", "tr">>,
+  <<"S01", "S", "tr">>, <<"S02", "S", "tr">>, <<"S03", "S", "end">>, <<"S04", "S", "tr">>,
   <<"H01", "H", "st">>, <<"H02", "H", "tr">> >>
 
 Selected(kind) == {c[1] : c \in {x \in ToSet(Clauses) : x[2] \in SelProps /\ x[3] = kind}}
@@ -82,6 +83,46 @@ EvalSt(n, s) ==
     [] n = "C17d" -> C17d(cx, s) [] n = "C17e" -> C17e(cx, s) [] n = "C17f" -> C17f(cx, s)
     [] n = "C17g" -> C17g(cx, s) [] n = "C17h" -> C17h(cx, s)
     [] n = "H01" -> H01(cx, s)
+
+(***************************************************************************)
+(* Strict mode (clauses S..): the recorded transition must be the one the  *)
+(* implementation-shaped model PPGEngine takes from the recorded pre-state *)
+(* - result class, complete engine state afterwards, the sequence of       *)
+(* signals handled and of job-state changes inside the call.  A failure is *)
+(* reported as DRIFT (model and code disagree), never as a VIOLATION.      *)
+(***************************************************************************)
+ModelCall(c, pre, post, call, isStart) ==
+  LET e == IF isStart THEN EInit(c) ELSE FromObs(c, pre, c.ord)
+      n == call.name
+      j == call.job
+  IN CASE n \in {"startup", "badstartup"} -> Startup(c, e, c.ord)
+       [] n \in {"start", "badstart"} -> NowRunning(c, e, j)
+       [] n = "success" -> FinishedSuccess(c, e, j, post.rep[j])
+       [] n = "badsuccess" -> FinishedSuccess(c, e, j, [c |-> [BOGUS |-> TRUE]])
+       [] n \in {"fail", "failx", "badfail"} -> FinishedFailure(c, e, j)
+       [] n \in {"cleanup", "badcleanup"} -> CleanupDone(c, e, j)
+       [] n = "abort" -> AbortRemaining(c, e)
+ResClass(res) == IF res \in {"internal", "panic"} THEN "dead" ELSE res
+StepsOf(steps, what) ==
+  LET sel == SelectSeq(steps, LAMBDA x : x[1] = what /\ x[4] # "Pruned")
+  IN IF what = "sig" THEN [i \in 1..Len(sel) |-> <<"sig", sel[i][2], sel[i][3]>>]
+     ELSE [i \in 1..Len(sel) |-> <<"st", sel[i][2], sel[i][3], sel[i][4]>>]
+S01(c, r, pre, post, isStart) ==
+  V(~pre.dead \/ isStart,
+    LET m == ModelCall(c, pre, post, r.call, isStart)
+    IN m.res = ResClass(r.res) /\ (m.res # "dead" => Diff(m.e, post) = {}))
+S02(c, r, pre, post, isStart) ==
+  V((~pre.dead \/ isStart) /\ c.steps /\ ResClass(r.res) # "dead",
+    LET m == ModelCall(c, pre, post, r.call, isStart)
+    IN SelectSeq(m.e.log, LAMBDA x : x[1] = "sig") = StepsOf(r.steps, "sig"))
+S04(c, r, pre, post, isStart) ==
+  V((~pre.dead \/ isStart) /\ c.steps /\ ResClass(r.res) # "dead",
+    LET m == ModelCall(c, pre, post, r.call, isStart)
+    IN SelectSeq(m.e.log, LAMBDA x : x[1] = "st") = StepsOf(r.steps, "st"))
+S03(c, s, nh, h1) ==
+  V(~s.dead /\ s.fin,
+    LET m == NewHistory(c, FromObs(c, s, c.ord))
+    IN m.res = nh /\ (nh = "ok" => SameFn(m.h, h1)))
 
 (* ---- transition lines ---- *)
 EmptyPre(post) ==
@@ -111,6 +152,9 @@ EvalTr(n, r, pre, post, isStart) ==
     [] n = "C20a" -> C20a(res, r.mis)
     [] n = "C20b" -> C20b(r.mis, r.to = r.from)
     [] n = "H02" -> IF isStart THEN "na" ELSE H02(cx, pre, post, call, res, r.mis)
+    [] n = "S01" -> S01(cx.c, r, pre, post, isStart)
+    [] n = "S02" -> S02(cx.c, r, pre, post, isStart)
+    [] n = "S04" -> S04(cx.c, r, pre, post, isStart)
 
 (* ---- end lines ---- *)
 EvalEnd(n, e, s, twinE, twinS, prevE, prevS) ==
@@ -171,6 +215,7 @@ EvalEnd(n, e, s, twinE, twinS, prevE, prevS) ==
     [] n = "C18c" -> C18c(cx, s, nh, h1, ids, idnames)
     [] n = "C18d" -> C18d(cx, s, nh, h1)
     [] n = "C18e" -> C18e(cx, s, nh, h1)
+    [] n = "S03" -> S03(cx.c, s, nh, h1)
 
 Results(r) ==
   \* [clause name -> "na" | "ok" | "bad"] for the clauses that apply to this line kind
